@@ -113,25 +113,45 @@ def auto_probes(domain, seed, n_states=2, calls=3, max_facts=14):
                 if len(set(c)) == len(c):
                     out.append((n, list(c)))
         return out
+    from pddl_plus_parser.models import Predicate
+
+    def wanted_facts(action, args):
+        """the positive literals at the top of the precondition, grounded for this call (so that some probes are applicable)"""
+        binding = dict(zip(action.signature.keys(), args))
+        out = []
+        for cond in action.preconditions.root.operands:
+            if isinstance(cond, Predicate) and cond.is_positive:
+                gargs = [binding.get(p, p) for p in cond.signature.keys()]
+                if len(set(gargs)) == len(gargs):
+                    out.append((cond.name, gargs))
+        return out
     probes = []
-    for _ in range(n_states):
-        facts = ground(domain.predicates, 4)
-        rng.shuffle(facts)
-        facts = facts[:max_facts]
+    for si in range(n_states):
+        base = ground(domain.predicates, 4)
+        rng.shuffle(base)
+        base = base[:max_facts]
         fluents = [(f, a, rng.choice([0.0, 1.0, 2.0, 5.0, 10.0, 0.5])) for f, a in ground(domain.functions, 4)][:max_facts]
         o = []
         for n, t in objs:
             o += [n, "-", t]
-        init = ["(= (%s) %r)" % (" ".join([f] + a), v) for f, a, v in fluents] + ["(%s)" % " ".join([p] + a) for p, a in facts]
-        ptxt = "(define (problem prob) (:domain %s) (:objects %s) (:init %s) (:goal (and)))" % (
-            domain.name, " ".join(o), " ".join(init))
         acts = list(domain.actions.values())
         rng.shuffle(acts)
         for a in acts[:calls]:
             pools = [pool(t.name) for t in a.signature.values()]
             if pools and not all(pools):
                 continue
-            args = [rng.choice(p) for p in pools]
+            args = []
+            for pl in pools:                       # distinct arguments where the pools allow it
+                cand = [x for x in pl if x not in args] or pl
+                args.append(rng.choice(cand))
+            facts = list(base)
+            if si % 2 == 0:                        # every other state is made to satisfy the call's positive literals
+                for w in wanted_facts(a, args):
+                    if w not in facts:
+                        facts.append(w)
+            init = ["(= (%s) %r)" % (" ".join([f] + x), v) for f, x, v in fluents] + ["(%s)" % " ".join([p] + x) for p, x in facts]
+            ptxt = "(define (problem prob) (:domain %s) (:objects %s) (:init %s) (:goal (and)))" % (
+                domain.name, " ".join(o), " ".join(init))
             probes.append({"action": a.name, "args": args, "problem_text": ptxt, "perm_seed": 0,
                            "state": {"facts": [[p, x] for p, x in facts], "fluents": [[f, x, float(v).hex()] for f, x, v in fluents]}})
     return {"objects": [list(o) for o in objs], "probes": probes}
@@ -165,7 +185,20 @@ def roundtrip(job):
             auto = auto_probes(d0, job.get("auto_seed", 0))
         except Exception as e:  # noqa
             auto = {"objects": [], "probes": [], "auto_raised": exc(e)}
-        probes = auto["probes"]
+        # keep the automatically built probes whose problem text the library itself accepts
+        good = []
+        for pr in auto["probes"]:
+            ppath = write_tmp(pr["problem_text"], ".pddl")
+            try:
+                ProblemParser(ppath, d0).parse_problem()
+                good.append(pr)
+            except Exception:  # noqa
+                pass
+            finally:
+                ppath.unlink()
+        auto["dropped"] = len(auto["probes"]) - len(good)
+        auto["probes"] = good
+        probes = good
         out["auto"] = auto
     exporter = DomainExporter()
     try:
